@@ -124,7 +124,8 @@ impl Op {
             // tokens *containing* inv (INVariant, subINVolution, and a few other
             // pathological cases)
             let def = &parameters.definition;
-            let inverted = def.contains(" inv ") || def.ends_with(" inv");
+            let inverted =
+                def.contains(" inv ") || def.ends_with(" inv") || def.starts_with("inv ");
             let mut next_param = parameters.next(def);
             next_param.definition = macro_definition;
             return Op::op(next_param, ctx)?.handle_inversion(inverted);
